@@ -8,8 +8,8 @@ NEEDS = ('rq', 'rqmc')
 
 def run(tier, seed):
     res = common.Result('model_checking')
-    m0 = tq.initial()
-    space = tq.c13_space(2 if tier == 'quick' else 3)
+    m0 = tq.initial(with_spacey=True)
+    space = tq.c13_space(2 if tier == 'quick' else 3, m0=m0)
     extra = [s for s in tq.enumerate_series(2, 2, allow_after_failure=1) if any(not p.ok() for p in s)]
     # failing patches applied with -R / -p0 / -p2: rejects carry the hunks as written in the patch file, names stripped
     extra += [s for s in tq.with_patch_options([x for x in tq.enumerate_series(2, 1, allow_after_failure=1) if any(not p.ok() for p in x)], 2) if any(p.reverse or p.strip != 1 for p in s)]
